@@ -114,6 +114,10 @@ def _line_case(item):
     try:
         c0 = [rng.uniform(-3, 3) for _ in range(t)]
         c1 = [x + rng.choice([-1, 1]) * rng.uniform(0.5, 4) for x in c0]
+        if seed % 4 == 0:
+            # "a constant" is any constant: a quarter of the cases lift one frame by +800 (float64 logits: exact to ~1e-13; only
+            # upwards, because the -80 floor of pruned entries is absolute and a frame pushed below it legitimately changes)
+            c1[(seed // 4) % t] = c0[(seed // 4) % t] + 800.0
         chars = ALPHABET[:nc - 1] + ["~"]
         lab = np.array(labels)
         al0 = np.array([x - 1 for x in al])
@@ -180,18 +184,27 @@ def _bag_case(item):
             tconf = [float(bag.transcript_confidence("h%d" % i)) for i in range(n)]
             tabs = float(bag.transcript_confidence("not in the bag"))
             obs.append((post, conf, tconf, tabs))
+        # the same bag object queried again after its public lm_weight attribute was changed (and changed back): posteriors
+        # must be normalised for the weight the bag holds now, not for the one it held at the first query
+        extra = []
+        if scale != "none":
+            for w2 in (2.0 - weight, 0.25, weight):
+                bag.lm_weight = w2
+                p2 = [math.exp(p) for p in bag.posteriors()]
+                extra.append((p2, float(bag.confidence()), [float(bag.transcript_confidence("h%d" % i)) for i in range(n)], 0.0))
         post, conf, tconf, tabs = obs[0]
+        obs_all = obs + extra
         rec["post"] = [_m6(p) for p in post]
         rec["conf"] = _m6(conf)
         rec["tconf"] = [_m6(p) for p in tconf]
         rec["tabsent"] = _m6(tabs)
-        rec["sumdev"] = max(_u12(abs(sum(o[0]) - 1.0)) for o in obs)
-        allv = [x for o in obs for x in o[0] + [o[1]] + o[2] + [o[3]]]
+        rec["sumdev"] = max(_u12(abs(sum(o[0]) - 1.0)) for o in obs_all)
+        allv = [x for o in obs_all for x in o[0] + [o[1]] + o[2] + [o[3]]]
         rec["over"] = _u12(max(max(x - 1.0 for x in allv), max(-x for x in allv)))
         a = obs[0][0] + [obs[0][1]] + obs[0][2]
         b = obs[1][0] + [obs[1][1]] + obs[1][2]
         rec["dshift"] = _u12(max(abs(x - y) for x, y in zip(a, b)))
-        rec["confdev"] = max(_u12(abs(o[1] - max(o[0]))) for o in obs)       # confidence() vs the largest posterior
+        rec["confdev"] = max(_u12(abs(o[1] - max(o[0]))) for o in obs_all)       # confidence() vs the largest posterior
     except Exception as ex:
         rec["outcome"] = "exception:" + type(ex).__name__
     return rec
